@@ -308,7 +308,19 @@ def heating(b):
                     env["radial_tidal_heating"] = v
                 return
             return super().assign(t, v, env)
-    ex = X(fn, pre=pre, globals_env=dict(G=G, np=Namespace("np", dict(imag=lambda ex_, node, z: Cx.of(z).im))), opts=dict(definedness=False))
+    def np_abs(ex_, node, z):
+        z = Cx.of(z)
+        a_ = sp.Symbol("abs_of_generic_slice", positive=True)
+        ex_.facts.append(sp.Eq(a_ ** 2, z.re ** 2 + z.im ** 2))
+        return a_
+
+    def np_max(ex_, node, arr):
+        # maximum over the whole array: an upper bound of the generic slice's value, otherwise arbitrary
+        m_ = sp.Symbol("max_over_array", positive=True)
+        ex_.facts.append(sp.Ge(m_, sp.sympify(arr)))
+        return m_
+    ex = X(fn, pre=pre, globals_env=dict(G=G, np=Namespace("np", dict(imag=lambda ex_, node, z: Cx.of(z).im, real=lambda ex_, node, z: Cx.of(z).re, abs=np_abs, max=np_max, amax=np_max))),
+           opts=dict(definedness=False))
     try:
         paths = ex.run(dict(eccentricity=e, orbital_frequency=n, semi_major_axis=a, tidal_host_mass=M, radius_array=rr, radial_sensitivity_to_shear=Hm, complex_shear_modulus=mu, order_l=l))
     except SymExError as ex_:
@@ -333,6 +345,7 @@ def build(tier="quick", seed=0):
     continuity(b)
     surface(b)
     heating(b)
+    b.replayer("*", _replay_c05)
     b.explanation = "lemma chain over the real sensitivity kernels, the extracted ODE operators, the C02 interface conditions, find_love_cf and calc_radial_tidal_heating; exact normal forms"
     b.assume("discretisation error of the user's radial sum (rectangle / trapezoid over >= 200 slices) vanishes with refinement: not a per-call fact, not proved; the stencil clauses give its order")
     b.assume("F -> 0 at the centre for regular solutions (starting vectors ~ r^l); static-liquid interiors are excluded (y1..y4 undefined there), only their boundaries enter through the continuity lemma")
@@ -341,3 +354,54 @@ def build(tier="quick", seed=0):
     b.assume("doubles as reals; numpy element-wise semantics for the array arguments of calc_radial_tidal_heating")
     b.trust("tpv.pyx2py translation of derivatives/odes.pyx and love.pyx")
     return b
+
+
+_C05_NATIVE = r'''
+import numpy as np
+from TidalPy.radial_solver.sensitivity import sensitivity_to_shear, sensitivity_to_bulk
+from TidalPy.tides.multilayer.heating import calc_radial_tidal_heating
+fails = []
+rng = np.random.default_rng(3)
+l = 2
+# graded (non-uniform) grid, y1 quadratic in r: the three-point gradient is exact, so the kernels must equal their closed forms with the exact derivative
+r = np.cumsum(np.linspace(1.0e3, 9.0e3, 40)) + 1.0e5
+a0, a1, a2 = (0.7 - 0.2j), (3.0e-6 + 1.0e-6j), (-2.0e-12 + 5.0e-13j)
+y = (rng.normal(size=(6, r.size)) + 1j * rng.normal(size=(6, r.size)))
+y[0] = a0 + a1 * r + a2 * r**2
+d = a1 + 2 * a2 * r
+for label, mu in (("stiff", np.full(r.size, 5.0e10 + 1.0e8j)), ("lossy", np.full(r.size, 2.0e9 + 6.0e9j))):
+    K = np.full(r.size, 1.5e11 + 0j)
+    Hm = sensitivity_to_shear(y, r, mu, K, l); Hk = sensitivity_to_bulk(y, r, mu, K, l)
+    Y = 2 * y[0] - l * (l + 1) * y[2]
+    lam = K - 2 * mu / 3
+    t1 = np.abs(y[1] - lam / r * Y)**2 / np.abs(K + 4 * mu / 3)**2
+    Hm_ref = 4 / 3 * r**2 * t1 - 4 / 3 * r * np.real(np.conj(d) * Y) + np.abs(Y)**2 / 3 + l * (l + 1) * r**2 * np.abs(y[3])**2 / np.abs(mu)**2 + l * (l**2 - 1) * (l + 2) * np.abs(y[2])**2
+    Hk_ref = r**2 * t1 + 2 * r * np.real(np.conj(d) * Y) + np.abs(Y)**2
+    s_ = slice(1, -1)
+    if not np.allclose(Hm[s_], Hm_ref[s_], rtol=1e-8): fails.append(["sensitivity_to_shear", "%s, graded grid, quadratic y1: max rel. deviation %.3g" % (label, float(np.max(np.abs(Hm[s_] / Hm_ref[s_] - 1))))])
+    if not np.allclose(Hk[s_], Hk_ref[s_], rtol=1e-8): fails.append(["sensitivity_to_bulk", "%s, graded grid, quadratic y1: max rel. deviation %.3g" % (label, float(np.max(np.abs(Hk[s_] / Hk_ref[s_] - 1))))])
+# heating profile: shell integrand, also for a layer 1e4 times softer than the stiffest one
+G = 6.6743e-11
+rr = np.linspace(1.0e5, 1.8e6, 30); H = np.abs(rng.normal(size=rr.size)) + 0.1
+mu = np.full(rr.size, 6.0e10 + 5.0e8j); mu[10:15] = 4.0e6 + 3.0e6j
+e, n, a, M = 0.0041, 4.1e-5, 4.2e8, 1.9e27
+h = calc_radial_tidal_heating(e, n, a, M, rr, H, mu, l)
+want = 1.5 * G * M**2 * rr[-1]**5 / a**6 * 7 * e**2 * n * (4 * np.pi * G / ((2 * l + 1) * rr[-1])) * H * np.imag(mu)
+if not np.allclose(h * 4 * np.pi * rr**2, want, rtol=1e-10): fails.append(["calc_radial_tidal_heating", "shell integrand differs (max rel. %.3g), e.g. in the soft layer" % float(np.max(np.abs(h * 4 * np.pi * rr**2 / want - 1)))])
+result = dict(failures=fails[:6], n=len(fails))
+'''
+
+
+def _replay_c05(ob, res):
+    from tpv import native
+    out = native.run(dict(code=_C05_NATIVE), timeout=900)
+    rec = dict(replayed=True, native=out)
+    if "result" not in out:
+        rec["confirmed"] = True
+        rec["detail"] = "the real kernels raised on the sample inputs"
+        return rec
+    fam = "calc_radial_tidal_heating" if "heating.py" in ob.fn else None
+    hits = [f for f in out["result"]["failures"] if (fam is None and f[0].startswith("sensitivity")) or f[0] == fam]
+    rec["confirmed"] = bool(hits)
+    rec["detail"] = hits[:3]
+    return rec
